@@ -40,7 +40,7 @@ PROJ = {
     "C13": {"abortIf", "op", "sleeper", "result"},
     "C14": {"metric", "log", "timeline", "result"},
     "C15": {"op", "sleeper", "budgetConsume", "breakerAllow", "breakerSuccess", "breakerFailure",
-            "breakerCancel", "result"},
+            "breakerCancel", "result", "metric", "log", "beforeSleep", "timeline"},
     "C16": {"sleepHandler", "beforeSleep", "sleeper", "op", "result"},
 }
 
@@ -363,6 +363,274 @@ def shrink(cr: CaseRun, answers: list[str], wall_seed: int, deliver_throw: bool,
     return best, best_ans
 
 
+# --------------------------------------------------------------------------- C12: entry-point twins
+
+ATTEMPT_HOOK_FLAGS = {"p_attempt_start", "p_attempt_end", "c_attempt_start", "c_attempt_end"}
+NOT_C12 = ("classify", "attemptStart", "attemptEnd")          # cf. Twin.keepC12
+
+
+def ref_of_tok(tok: str) -> str:
+    """cf. Exn.ref: how the exception named by a result token appears as `last_exception`"""
+    p = tok.split(":")
+    short = {"ordinary": "o", "abort": "a", "exhausted": "x", "circuitOpen": "c"}
+    return short[p[0]] + p[1] if p[0] in short else p[0]
+
+
+def deliver_related(rc: str, re_: str) -> bool:
+    """`Twin.deliverRelated` on the wire form of results: call() delivers by return / raise what
+    execute() delivers as a RetryOutcome."""
+    c, e = rc.split(), re_.split()
+    if e[0] == "raise":
+        return c == e
+    if e[0] != "outcome":
+        return False
+    ok, value, stop, attempts, last_class, last_exc, last_result, cause, _elapsed, next_sleep = e[1:11]
+    if c[0] == "ret":
+        return ok == "1" and value == c[1]
+    if c[0] != "raise" or ok != "0":
+        return False
+    tok = c[1]
+    k = tok.split(":")[0]
+    if k == "libExhausted":
+        _, f_stop, f_att, f_class, f_exc, f_res, f_ns = tok.split(":")
+        return (stop == f_stop and attempts == f_att and last_class == f_class and next_sleep == f_ns
+                and last_result == f_res and (f_exc == "-" or last_exc == f_exc))
+    if k in ("libAbort", "abort"):
+        return stop == "ABORTED"
+    if k == "libCircuitOpen":
+        return attempts == "0" and last_exc == "libCircuitOpen"
+    if k == "libRuntimeError":
+        return stop == "MAX_ATTEMPTS_GLOBAL" and attempts == "0"
+    return cause == "exception" and last_exc == ref_of_tok(tok)
+
+
+DEBUG_RANOUT = None
+
+
+class MemoClassifierOracle(ReplayOracle):
+    """Replay, with a classifier that is a function of the exception: a classification asked again
+    for the same exception is answered as before without consuming an answer."""
+
+    def __init__(self, answers: list[str]) -> None:
+        super().__init__(answers)
+        self.memo: dict = {}
+
+    def choose(self, kind: str, info: dict):
+        if kind == "classify":
+            req = info.get("req")
+            if req in self.memo:
+                return self.memo[req]
+            a = super().choose(kind, info)
+            self.memo[req] = a
+            return a
+        return super().choose(kind, info)
+
+
+def f11_witness() -> dict | None:
+    """Known finding F11, deterministic witness: Policy(retry=Retry(max_attempts=0), circuit_breaker=…):
+    call() raises RuntimeError and records the breaker failure under the class the user's classifier gives
+    to that RuntimeError; execute() returns MAX_ATTEMPTS_GLOBAL and records UNKNOWN."""
+    c = LoopCfg()
+    c.max_attempts, c.kind, c.strat_default = 0, "Policy", "ctx"
+    c.breaker = {"threshold": 3, "window": 100, "recovery": 5, "trip": ["TRANSIENT", "UNKNOWN"], "cls": {}}
+    a = run_case("f11_call", c, [("call",)], ReplayOracle(["klass TRANSIENT - 0"]), 0, False)
+    b = run_case("f11_execute", c, [("execute",)], ReplayOracle([]), 0, False)
+    ra = [(r, x) for (_, r, x) in a.exchanges if kind_of(r).startswith("breaker")]
+    rb = [(r, x) for (_, r, x) in b.exchanges if kind_of(r).startswith("breaker")]
+    if ra != rb:
+        return {"property": "C12", "kind": "violation", "sig": "C12/max-attempts-0/breaker-class",
+                "detail": f"max_attempts=0: Policy.call breaker interactions {ra}; Policy.execute {rb}",
+                "replay": a.text + b.text, "meta": {}}
+    return None
+
+
+def f12_witness() -> dict | None:
+    """Known finding F12, deterministic witness: the operation raises a CircuitOpenError of its own (a nested
+    policy).  Policy.call's `_handle_exception_call` returns early for CircuitOpenError, so the admitted call
+    is settled as a cancel; Policy.execute records a breaker failure."""
+    c = LoopCfg()
+    c.max_attempts, c.kind, c.strat_default = 1, "Policy", "ctx"
+    c.breaker = {"threshold": 3, "window": 100, "recovery": 5, "trip": ["TRANSIENT", "UNKNOWN"], "cls": {}}
+    ans = ["raise circuitOpen:1 0", "klass TRANSIENT - 0", "klass TRANSIENT - 0"]
+    a = run_case("f12_call", c, [("call",)], ReplayOracle(ans), 0, False)
+    b = run_case("f12_execute", c, [("execute",)], ReplayOracle(ans), 0, False)
+    ra = [(r, x) for (_, r, x) in a.exchanges if kind_of(r).startswith("breaker")]
+    rb = [(r, x) for (_, r, x) in b.exchanges if kind_of(r).startswith("breaker")]
+    if ra != rb:
+        return {"property": "C12", "kind": "violation", "sig": "C12/nested-circuit-open/breaker-record",
+                "detail": f"operation raises CircuitOpenError: Policy.call breaker interactions {ra}; "
+                          f"Policy.execute {rb}", "replay": a.text + b.text, "meta": {}}
+    return None
+
+
+def f13_witness() -> dict | None:
+    """Known finding F13, deterministic witness: a retry-less Policy whose operation raises a
+    RetryExhaustedError of its own (a nested policy).  Policy.call records the breaker failure under
+    `exc.last_class`; Policy.execute (`_execute_without_retry`) under `default_classifier(exc)` = UNKNOWN."""
+    c = LoopCfg()
+    c.kind, c.flags = "Policy", {"no_retry"}
+    c.breaker = {"threshold": 3, "window": 100, "recovery": 5, "trip": ["TRANSIENT", "UNKNOWN"], "cls": {}}
+    ans = ["raise exhausted:1:TRANSIENT 0"]
+    a = run_case("f13_call", c, [("call",)], ReplayOracle(ans), 0, False)
+    b = run_case("f13_execute", c, [("execute",)], ReplayOracle(ans), 0, False)
+    ra = [(r, x) for (_, r, x) in a.exchanges if kind_of(r).startswith("breaker")]
+    rb = [(r, x) for (_, r, x) in b.exchanges if kind_of(r).startswith("breaker")]
+    if ra != rb:
+        return {"property": "C12", "kind": "violation", "sig": "C12/nested-exhausted-no-retry/breaker-class",
+                "detail": f"retry-less Policy, operation raises RetryExhaustedError(last_class=TRANSIENT): "
+                          f"Policy.call breaker interactions {ra}; Policy.execute {rb}",
+                "replay": a.text + b.text, "meta": {}}
+    return None
+
+
+def same_entry_variants(cfg: LoopCfg, script: list, exchanges) -> list[tuple[str, LoopCfg]]:
+    """other entry points that map to the SAME model entry and configuration (so: identical runs)"""
+    import copy
+    out = []
+    cancelled = any(a.startswith("raise cancelled") for (_, _, a) in exchanges)
+    if not cancelled:                        # only `except asyncio.CancelledError` tells the twins apart
+        c = copy.copy(cfg)
+        c.flags = set(cfg.flags) ^ {"async"}
+        out.append(("async" if "async" in c.flags else "sync", c))
+    if cfg.kind != "decorator":
+        c = copy.copy(cfg)
+        c.via_context = not cfg.via_context
+        out.append(("context" if c.via_context else "no-context", c))
+    plain = (cfg.breaker is None and not cfg.has("no_retry") and not (cfg.flags & {"p_attempt_start", "p_attempt_end"}))
+    if cfg.kind in ("Policy", "RetryPolicy", "decorator") and plain:
+        for kind in ("Policy", "RetryPolicy", "decorator"):
+            if kind == cfg.kind:
+                continue
+            if kind == "decorator" and (cfg.flags & {"c_handler", "c_before_sleep", "c_sleeper", "timeline"}
+                                        or not cfg.operation or cfg.via_context
+                                        or any(st[0] == "execute" for st in script)):
+                continue
+            c = copy.copy(cfg)
+            c.kind = kind
+            if kind == "decorator":
+                c.via_context = False
+            out.append((kind, c))
+    return out
+
+
+def c12_env(cfg: LoopCfg, exchanges) -> bool:
+    """cf. Twin.c12Env: no attempt hooks; the abort predicate does not raise; callbacks other than the
+    operation do not raise AbortRetryError / RetryExhaustedError / CircuitOpenError themselves"""
+    if cfg.flags & ATTEMPT_HOOK_FLAGS:
+        return False
+    for (_, req, ans) in exchanges:
+        k = kind_of(req)
+        if not ans.startswith("raise ") or k == "op":
+            continue
+        if k == "abortIf":
+            return False
+        if ans.split()[1].split(":")[0] in ("abort", "exhausted", "circuitOpen", "libAbort", "libExhausted",
+                                            "libCircuitOpen"):
+            return False
+        if k in ("metric", "log") and ans.split()[1] in ("cancelled", "keyboardInterrupt", "systemExit",
+                                                          "generatorExit") and " circuit_" in req:
+            # a breaker-event hook raising a BaseException-only kind AFTER the record: Policy.call's
+            # `except (KeyboardInterrupt, SystemExit)` arm records a cancel on top, execute() does not
+            # (DESIGN §6.2 observation; outside "the same behaviour of the callbacks" for hooks)
+            return False
+    return True
+
+
+def entry_twins(cr: CaseRun, answers: list[str], meta: dict, rng: random.Random, counters: dict) -> list[dict]:
+    """C12 on the implementation itself: the same answers through another entry point.
+    (a) an entry point with the same model image (sync/async, Policy/RetryPolicy/@retry, context manager):
+        everything must be identical;  (b) call() <-> execute() on the first call of the script: same
+        exchanges (up to classifier calls and attempt hooks) and deliver-related results."""
+    fails = []
+    cid = cr.text.split()[1]
+    vs = same_entry_variants(cr.cfg, cr.script, cr.exchanges)
+    if vs:
+        name, vcfg = rng.choice(vs + [v for v in vs if v[0] in ("sync", "async")])   # the hand-maintained twins
+        counters["c12"]["same-entry:" + name] += 1
+        tw = replay_case(cid + "_ep", vcfg, cr.script, answers, meta["wall_seed"], False)
+        if tw is None:
+            fails.append(("C12/twin-consumes-more-answers/" + name, f"{vcfg.kind} ran out of answers"))
+        else:
+            a = [(s, r, x) for (s, r, x) in cr.exchanges]
+            b = [(s, r, x) for (s, r, x) in tw.exchanges]
+            ra, rb = [(s.res, s.tl) for s in cr.steps], [(s.res, s.tl) for s in tw.steps]
+            if a != b:
+                i = next((i for i, (x, y) in enumerate(zip(a, b)) if x != y), min(len(a), len(b)))
+                fails.append((f"C12/exchanges-differ/{name}",
+                              f"{cr.cfg.kind}{'/async' if cr.cfg.has('async') else ''} vs {name}: exchange {i}: "
+                              f"{a[i] if i < len(a) else None} vs {b[i] if i < len(b) else None}"))
+            elif ra != rb:
+                fails.append((f"C12/results-differ/{name}", f"{ra} vs {rb}"))
+            elif cr.final_state != tw.final_state:
+                fails.append((f"C12/state-differs/{name}", f"{cr.final_state} vs {tw.final_state}"))
+    # (b) call <-> execute, first call of the script only
+    first = next((i for i, st in enumerate(cr.script) if st[0] in ("call", "execute")), None)
+    ex0 = [(r, x) for (s, r, x) in cr.exchanges if s == 0]
+    policy_level = cr.cfg.kind != "Retry"
+    by_ref: dict = {}
+    for (r, x) in ex0:
+        if kind_of(r) == "classify":
+            by_ref.setdefault(r, set()).add(x)
+    # "the same behaviour of the callbacks": Policy.call asks the classifier once more (for the breaker)
+    # than Policy.execute, so at policy level the classifier must be a function of the exception, and
+    # take no time (the extra call would otherwise shift the breaker's clock)
+    functional = all(len(v) == 1 and next(iter(v)).endswith(" 0") for v in by_ref.values())
+    if first is not None and cr.cfg.kind != "decorator" and c12_env(cr.cfg, [(0, r, x) for (r, x) in ex0]):
+        if policy_level and not functional:
+            counters["c12"]["flip:skipped-classifier-not-a-function"] += 1
+        elif policy_level and cr.cfg.max_attempts == 0:
+            # known finding F11 (see f11_witness): with max_attempts=0 Policy.call has the classifier classify
+            # the library's own RuntimeError for the breaker, Policy.execute records UNKNOWN
+            counters["c12"]["flip:skipped-max-attempts-0 (F11)"] += 1
+        else:
+            import copy
+            fcfg = copy.copy(cr.cfg)
+            fcfg.flags = set(cr.cfg.flags) - {"timeline"}
+            which = cr.script[first][0]
+            other = "execute" if which == "call" else "call"
+            script = list(cr.script[:first]) + [(other,)]
+            internal = ("budgetConsume", "breakerAllow", "breakerSuccess", "breakerFailure", "breakerCancel")
+            seen_cls: set = set()
+            ans0 = []
+            for (r, x) in ex0:
+                if kind_of(r) in internal:
+                    continue
+                if policy_level and kind_of(r) == "classify":
+                    if r in seen_cls:
+                        continue             # answered from the memo in the twin
+                    seen_cls.add(r)
+                ans0.append(x)
+            oracle = MemoClassifierOracle(ans0) if policy_level else ReplayOracle(ans0)
+            try:
+                tw = run_case(cid + "_flip", fcfg, script, oracle, meta["wall_seed"], False)
+            except StopDriver:
+                tw = None
+            counters["c12"]["flip:" + which] += 1
+            if tw is not None and c12_env(fcfg, tw.exchanges):
+                pa = [(r, x) for (r, x) in ex0 if kind_of(r) not in NOT_C12]
+                pb = [(r, x) for (s, r, x) in tw.exchanges if kind_of(r) not in NOT_C12]
+                rc, re_ = (cr.steps[0].res, tw.steps[0].res) if which == "call" else (tw.steps[0].res, cr.steps[0].res)
+                if pa != pb:
+                    i = next((i for i, (x, y) in enumerate(zip(pa, pb)) if x != y), min(len(pa), len(pb)))
+                    nested = rc.startswith("raise circuitOpen:") and i < len(pa) and i < len(pb) \
+                        and {kind_of(pa[i][0]), kind_of(pb[i][0])} == {"breakerCancel", "breakerFailure"}
+                    nested_x = rc.startswith("raise exhausted:") and cr.cfg.has("no_retry") and i < len(pa) \
+                        and i < len(pb) and kind_of(pa[i][0]) == kind_of(pb[i][0]) == "breakerFailure"
+                    fails.append(("C12/nested-circuit-open/breaker-record" if nested else
+                                  "C12/nested-exhausted-no-retry/breaker-class" if nested_x else
+                                  f"C12/call-execute/exchanges/{cr.cfg.kind}",
+                                  f"{which}: {pa[i] if i < len(pa) else None}  {other}: {pb[i] if i < len(pb) else None}"))
+                elif not deliver_related(rc, re_):
+                    fails.append((f"C12/call-execute/result/{cr.cfg.kind}", f"call: {rc}  execute: {re_}"))
+            elif tw is None:
+                counters["c12"]["flip:ran-out"] += 1
+                if DEBUG_RANOUT is not None:
+                    DEBUG_RANOUT.append((which, cr.text))
+    return [{"property": "C12", "kind": "violation", "sig": sig,
+             "detail": "entry points disagree on the same answers: " + det, "replay": cr.text, "meta": meta}
+            for (sig, det) in fails]
+
+
 # --------------------------------------------------------------------------- C15: silent-hook twin
 
 HOOK_KINDS = ("metric", "log", "beforeSleep")
@@ -412,6 +680,9 @@ def silent_twin(cr: CaseRun, answers: list[str], meta: dict) -> dict | None:
     ra, rb = [s.res for s in cr.steps], [s.res for s in twin.steps]
     if ra != rb:
         return {"sig": "C15/different-result", "detail": f"faulty hooks: {ra}  silent hooks: {rb}"}
+    ta, tb = [s.tl for s in cr.steps], [s.tl for s in twin.steps]
+    if ta != tb:
+        return {"sig": "C15/different-timeline", "detail": f"faulty hooks: {ta}  silent hooks: {tb}"}
     if cr.final_state != twin.final_state:
         return {"sig": "C15/different-component-state", "detail": f"{cr.final_state} vs {twin.final_state}"}
     return {}
@@ -605,7 +876,7 @@ def run(tier: str, seed: int, props: list[str] | None = None, n_cases: int | Non
     t0 = wall()
     rng = random.Random(seed * 7919 + 11)
     res = LoopResult()
-    counters = {k: Counter() for k in ("entry", "stop", "kind", "req", "raise_at", "twin", "boundary")}
+    counters = {k: Counter() for k in ("entry", "stop", "kind", "req", "raise_at", "twin", "boundary", "c12")}
     n = n_cases if n_cases is not None else int((20000 if tier == "quick" else 250000) * min(scale, 2.0))
     batch: list = []
     for i in range(n):
@@ -626,6 +897,10 @@ def run(tier: str, seed: int, props: list[str] | None = None, n_cases: int | Non
         meta = {"wall_seed": wall_seed, "deliver_throw": deliver_throw}
         batch.append((cr, meta))
         answers = [ln[2:] for ln in cr.text.splitlines() if ln.startswith("a ")]
+        if "C12" in (props or LOOP_PROPS):
+            faulty = any(x.startswith("raise ") and kind_of(r) != "op" for (_, r, x) in cr.exchanges)
+            if rng.random() < (1.0 if faulty else 0.35):
+                res.failures += entry_twins(cr, answers, meta, rng, counters)
         tw = silent_twin(cr, answers, meta)
         if tw is not None:
             counters["twin"]["compared"] += 1
@@ -640,6 +915,10 @@ def run(tier: str, seed: int, props: list[str] | None = None, n_cases: int | Non
             batch = []
     if batch:
         run_batch(batch, res, counters, props or LOOP_PROPS)
+    if "C12" in (props or LOOP_PROPS):
+        for w in (f11_witness(), f12_witness(), f13_witness()):
+            if w is not None:
+                res.failures.append(w)
     dfs_report = {}
     if (tier == "thorough" or scale > 1.0) and n_cases is None:
         dfs_report = run_dfs(res, counters, max_runs_per_cfg=60000)
